@@ -312,6 +312,13 @@ func (p *Prog) Named(pkgSuffix, name string) *types.Named {
 	if pk == nil {
 		return nil
 	}
+	// a canonical (role) name registered for a private type of that package wins
+	for tn, alias := range TypeAlias {
+		if alias == name && tn.Pkg() == pk.Types {
+			n, _ := tn.Type().(*types.Named)
+			return n
+		}
+	}
 	o := pk.Types.Scope().Lookup(name)
 	if o == nil {
 		return nil
